@@ -124,7 +124,8 @@ class IncrementalSage(BaseIncrementalFeatureImportance):
         if self.seen_samples >= 1:
             if n_inner_samples is None:
                 n_inner_samples = self.n_inner_samples
-            permutation_chain = np.random.permutation(self.feature_names)
+            permutation_chain = [self.feature_names[i]
+                                 for i in np.random.permutation(len(self.feature_names))]
             y_i_pred = self._model_function(x_i)
             model_loss = self._loss_function(y_i, y_i_pred)
             self._model_loss_tracker.update(model_loss)
